@@ -114,11 +114,14 @@ class CallMixin:
     def assumed_model(self, name, ret):
         def model(eng, st, args, kwargs, node):
             eng.used_assumed.add(name)
-            if name in eng.reg.pure_calls and isinstance(ret, z3.SortRef) and not kwargs:
+            if name in eng.reg.pure_calls and (isinstance(ret, z3.SortRef) or ret in ('opaque', 'nonnull')) and not kwargs:
                 # assumed pure: an uninterpreted function of its arguments (same arguments, same result), never raises
                 targs = [eng.as_obj(a) for a in args if not isinstance(a, VObj)]
-                f = z3.Function('assumed:' + name, *[t.sort() for t in targs], ret)
-                return [(st, lift(f(*targs)))]
+                f = z3.Function('assumed:' + name, *[t.sort() for t in targs], ret if isinstance(ret, z3.SortRef) else Obj)
+                r = lift(f(*targs))
+                if ret == 'nonnull':
+                    r.nonnull = True
+                return [(st, r)]
             out = [(st, fresh(ret, hint=name.split('.')[-1]))]
             s2 = st.fork()
             s2.trail.append(f"raise@{getattr(node, 'lineno', '?')}:{name}")
@@ -325,6 +328,8 @@ class CallMixin:
                 for en in c.ensures_exc:
                     s2.assume(en(ns2, exc))
                 s2.trail.append(f"raise@{getattr(node, 'lineno', '?')}:{key.split('::')[1]}")
+                if getattr(c, 'ghost_at_raise', None):
+                    c.ghost_at_raise(self, s2, ns2, exc)
                 if self.feasible(s2):
                     outs.append((s2, Raised(exc)))
         s1 = pre.fork()
@@ -514,6 +519,11 @@ class CallMixin:
                 return [(st, (VList if name == 'list' else VTuple)(v.items))]
             if isinstance(v, (VOpaque, VObj)):
                 return [(st, VOpaque(hint=name))] + self.maybe_raise(st, name, node)
+        if name == 'sum' and len(a) == 1 and isinstance(a[0], (VList, VTuple)) and all(isinstance(x, (VInt, VBool)) for x in a[0].items):
+            tot = lift(0)
+            for x in a[0].items:
+                tot = tot + x
+            return [(st, VInt(z3.simplify(tot.t)))]
         if name in ('dict', 'set', 'frozenset', 'sorted', 'reversed', 'sum', 'any', 'all', 'iter', 'next', 'id', 'hash',
                     'getattr', 'hasattr', 'zip', 'enumerate', 'range', 'map', 'filter', 'object', 'bytes', 'bytearray',
                     'round', 'divmod', 'pow', 'min', 'max', 'abs', 'chr', 'ord', 'vars', 'dir'):
